@@ -1054,6 +1054,35 @@ theorem C12_half_registration_witness :
   revert this
   decide
 
+/-- **Entries are immutable once published.** The regenerated table of assignments to fields of the four registry entry
+    types (and to whole entries through a pointer, and of field addresses handed out) is empty, and all four types were
+    found: an entry is built by a composite literal and never changed, a re-registration stores a NEW entry. -/
+theorem C12_entries_immutable :
+    entriesImmutable Mcp.Gen.registryEntryWrites Mcp.Gen.registryEntryTypesSeen = true := by decide +kernel
+
+/-- Hence look-up-then-use is atomic: whatever other goroutines do to the registries between the instant a request path
+    copied the entry out and the instant it calls the handler — unregister this very entry, re-register it, anything, in
+    any number — the request answers with exactly what the look-up found (the linearisation point of a call is its
+    look-up, which is how `callOf` models it). -/
+theorem C12_lookup_then_use_atomic (k : Kind) (n : Key) (r : Reg) (ops : List Op) :
+    useCopied true k n (lookup r.map n) ops =
+      some (match lookup r.map n with | some v => .found v | none => .notFound) := by
+  cases h : lookup r.map n <;> simp [useCopied]
+
+theorem C12_lookup_then_use_atomic_real (k : Kind) (n : Key) (r : Reg) (ops : List Op) :
+    useCopied (entriesImmutable Mcp.Gen.registryEntryWrites Mcp.Gen.registryEntryTypesSeen) k n (lookup r.map n) ops =
+      some (match lookup r.map n with | some v => .found v | none => .notFound) := by
+  rw [C12_entries_immutable]; exact C12_lookup_then_use_atomic k n r ops
+
+/-- The bad region (seeded change C12-16): `unregisterTools` clears `Handler` and `Tool` of the removed entry in place.
+    The table is rejected, and a call that resolved the tool just before `UnregisterTools` of it dies. -/
+theorem C12_cleared_entry_witness :
+    entriesImmutable [⟨t!"registeredTool", t!"Handler", t!"toolManager.unregisterTools"⟩,
+                      ⟨t!"registeredTool", t!"Tool", t!"toolManager.unregisterTools"⟩] 4 = false ∧
+    entriesImmutable [] 3 = false ∧
+    useCopied false .tool t!"x" (some 2) [.unreg .tool [t!"x"]] = none ∧
+    useCopied false .tool t!"x" (some 2) [.unreg .tool [t!"y"], .reg .tool t!"x" 3] = some (.found 2) := by decide
+
 /-! ## non-vacuity -/
 
 /-- register a, register b, re-register a (new version, same position), list, unregister a, call a, call b,
